@@ -90,6 +90,59 @@ def _check_main(run, P):
     _alias(run, "C01.step", "C11.phase", lambda: c01._step(run, P))
 
 
+def tracked_entries(P, tracked):
+    """[(unit, statement, under 'not is_state_variable(<name>)')] for every place of the
+    interpreter that enters a name into the set *tracked* (self.<attr>)"""
+    from .util import path_conditions
+    C = P.cls(INTERP)
+    out = []
+
+    def conjuncts(t, pol):
+        try:
+            e = ast.parse(t, mode="eval").body
+        except SyntaxError:
+            return [(t, pol)]
+        if pol and isinstance(e, ast.BoolOp) and isinstance(e.op, ast.And):
+            res = []
+            for v in e.values:
+                if isinstance(v, ast.UnaryOp) and isinstance(v.op, ast.Not):
+                    res.append((norm(v.operand, 2000), False))
+                else:
+                    res.append((norm(v, 2000), True))
+            return res
+        return [(t, pol)]
+    for name_, m_ in sorted(C.methods.items()):
+        for u in [m_] + list(m_.nested.values()):
+            for st_ in ast.walk(u.node):
+                if isinstance(st_, ast.Expr) and isinstance(st_.value, ast.Call) \
+                        and dotted(st_.value.func) == f"{tracked}.add" and st_.value.args:
+                    nm = norm(st_.value.args[0])
+                    pcs = [c for t, pol in path_conditions(u.node, st_) for c in conjuncts(t, pol)]
+                    out.append((u, st_, any(t == f"is_state_variable({nm})" and pol is False
+                                            for t, pol in pcs)))
+    return out
+
+
+def tracked_set_of_cleanup(P):
+    """self.<attr> if the cleanup of run_single_step walks a set of names kept beside the store"""
+    f = P.func(f"{INTERP}.run_single_step")
+    for t in ast.walk(f.node):
+        if isinstance(t, ast.Try) and t.finalbody:
+            for b in t.finalbody:
+                for lp in ast.walk(b):
+                    if isinstance(lp, ast.For):
+                        it = lp.iter
+                        if isinstance(it, ast.Call) and dotted(it.func) in ("list", "tuple", "sorted") and it.args:
+                            it = it.args[0]
+                        d = dotted(it) or ""
+                        if d.startswith("self.") and d != "self.context" and d.count(".") == 1 and any(
+                                isinstance(x, ast.Delete) or (isinstance(x, ast.Call)
+                                                              and dotted(x.func) == "self.context.pop")
+                                for x in ast.walk(lp)):
+                            return d
+    return None
+
+
 def _finally_filter(run, P):
     f = P.func(f"{INTERP}.run_single_step")
     g = CFG(f.node)
@@ -173,6 +226,17 @@ def _finally_filter(run, P):
                "statement), and must not iterate the dict it is deleting from")
     # filter
     ok = False
+    if not (norm(inner) in ("self.context.keys()", "self.context")) and tracked:
+        # the set holds per-step names only: the test is made where names enter it
+        adds_ = tracked_entries(P, tracked)
+        if not adds_:
+            raise AnalysisError(f"run_single_step: nothing is entered into {tracked}")
+        bad_ = [a for a in adds_ if not a[2]]
+        run.ob("C11.filter", bad_[0][0] if bad_ else f, bad_[0][1] if bad_ else outer, not bad_,
+               construct=f"only names that are no state variables enter {tracked} "
+                         f"({len(adds_)} site(s)); the cleanup deletes what is in it",
+               why="exactly the persistent classes survive a step")
+        return
     for n in ast.walk(outer):
         if isinstance(n, ast.If):
             t = n.test
@@ -295,6 +359,20 @@ def _transparent(run, P):
         else:
             types = [dotted(h.type) or norm(h.type)]
         ok = all(t in CONTROL for t in types)
+        if not ok and not isinstance(where, tuple):
+            # classes of the repository's own making (an error class of the evaluator, say) are,
+            # like the control exceptions, not what a user function raises - the recorded
+            # exclusion "a user function raising dagrt's own exceptions" covers them
+            def own_class(t_):
+                try:
+                    c_ = where.classes.get(t_) or P.resolve_name(where, t_)
+                except Exception:
+                    c_ = None
+                from ..engine.srcmodel import Class as _Class
+                return isinstance(c_, _Class) and not c_.module.trusted
+            if all(t in CONTROL or own_class(t) for t in types):
+                ok = True
+                types = types + ["(classes of the repository's own)"]
         if not ok and any(t.startswith("self.") and t not in CONTROL for t in types):
             # the classes caught are an option of the stepper (the caller asked for some
             # exceptions to fail the step): what the default catches is in the constructor
